@@ -310,3 +310,14 @@ fn transform_quat(v: Cartesian, q: [f64; 4]) -> Cartesian {
 
     Cartesian::new(result_x, result_y, result_z)
 }
+
+#[cfg(feature = "verif")]
+impl DodecahedronProjection {
+    /// Verification hook: which memo slots are filled (face triangles, spherical triangles)
+    pub fn verif_memo_slots(&self) -> (Vec<bool>, Vec<bool>) {
+        (
+            self.face_triangles.iter().map(|s| s.is_some()).collect(),
+            self.spherical_triangles.iter().map(|s| s.is_some()).collect(),
+        )
+    }
+}
